@@ -181,6 +181,15 @@ func (ex *Exec) appendOp(fr *Frame, st *State, ci *ssa.Call, args []*Val, rt typ
 	fits := ex.name(SLe(newLen, s.Cap), "afits")
 	// in-place branch
 	inPlace := &Val{K: KSlice, Typ: rt, IsNil: False, Tg: s.Tg, Off: s.Off, Len: newLen, Cap: s.Cap}
+	if fr.isRoot && fr.contract != nil && len(fr.contract.NoGrow) > 0 {
+		if _, k := callOrdinal(fr.fn, ci); fr.contract.NoGrow[k] {
+			// the contract states that this append never reallocates: prove it, then model the in-place result only
+			ex.oblige(st, "assert", fmt.Sprintf("nogrow[append:%d]", k), fits, nil, pos, "append stays within the capacity (nogrow)")
+			ex.assume(st.pc, fits)
+			ex.nogrowHit[k] = true
+			fits = True
+		}
+	}
 	// fresh branch
 	o := ex.newObj(fmt.Sprintf("grown%d", ex.objCtr+1), et)
 	o.Backing = true
